@@ -64,6 +64,45 @@ reg("C11",
     "The un-hinted query itself is checked against the exact model in C01; here it is the reference.",
     "DESIGN.md section 4, C11")
 
+reg("C02",
+    "exhaustive lane-subset/position/flag table + Hypothesis-generated instrument sections against a grouping model",
+    "Exploration by generated-input search: a complete table (all 32 lane combinations x position x gap "
+    "x flags) every run plus Hypothesis sections (up to 30/200 ticks, gaps incl. 1, shuffled lane order, "
+    "flags between lane lines, S/E lines interleaved anywhere) parsed with Chart.from_file and compared "
+    "with an independent grouping model (sorted distinct ticks, 5-bit lane tuple).",
+    "Generators stay inside the documented well-formed domain (open alone/first, sorted N lines, no forced first note).",
+    "DESIGN.md section 4, C02")
+
+reg("C03",
+    "exhaustive lane x length x flag table + Hypothesis tracks over multi-segment tempo maps against a sustain model and the exact tempo oracle",
+    "Exploration by generated-input search: the complete table of 4100 lane/length/flag patterns (flag "
+    "lines with non-zero length fields) every run, and Hypothesis tracks whose sustains end inside later "
+    "tempo segments / on tempo ticks, empty tracks and tracks whose longest-ending note is not last; "
+    "sustain, longest_sustain, end_tick, end_timestamp (== query and within C01 tolerance of exact) and "
+    "last_note_end_timestamp are compared with the model.",
+    "As C02; exact-time comparison uses the C01 tolerance.",
+    "DESIGN.md section 4, C03")
+
+reg("C04",
+    "per-resolution complete decision table (de Bruijn sequence over all 32x32 note pairs x distances x flags) + Hypothesis tracks against the natural-HOPO rule",
+    "Exploration by generated-input search, exhaustive per enumerated resolution: for each of 21 (quick) / "
+    "221 (thorough) resolutions every ordered pair of the 32 lane combinations at distances "
+    "thr-1/thr/thr+1/1/2thr+1/10res with every (tap, forced) combination is parsed and compared with the "
+    "rule; Hypothesis adds random resolutions up to 10^6, random gaps around the threshold, random flags "
+    "and positions. Resolutions not enumerated are only sampled.",
+    "threshold oracle (2*res+3)//6; forced flag never on the first note.",
+    "DESIGN.md section 4, C04")
+
+reg("C05",
+    "bounded-exhaustive small scope (all <=2-phrase lists x note subsets) + Hypothesis relation-built phrase lists against brute-force half-open membership",
+    "Exploration by generated-input search: all lists of <= 2 phrases (start 0..6, len 0..4, tied starts in "
+    "both orders) x note subsets of ticks 0..7 (all 256 in thorough), sampled 3-phrase lists, and "
+    "Hypothesis lists of <= 8 phrases built from relations (adjacent/nested/overlapping/zero-length/"
+    "identical start) with notes on start-1/start/end-1/end; membership and index are compared with a "
+    "brute-force first-covering-phrase oracle.",
+    "Phrases ordered by start tick, notes strictly increasing (the property's quantifier).",
+    "DESIGN.md section 4, C05")
+
 
 def build():
     checks = []
